@@ -66,6 +66,21 @@ def opTf (debug : Bool) (bs : Bytes) : String :=
       let f : Topic.TopicFilter := ⟨bs, sep⟩
       s!"inv=0 sep={sep} shared={b01 f.isShared} group={showOptBytes f.sharedGroupName} filter={showOptBytes f.sharedFilter} sys={b01 (Topic.nameIsSys cs)}"
 
+/-- `tfcmp a b`: Ord / PartialEq of two constructed filters (hand-written impls in the code). -/
+def opTfCmp (debug : Bool) (a b : Bytes) : String :=
+  let mk (bs : Bytes) : Option Topic.TopicFilter :=
+    match Utf8.decode bs with
+    | none => none
+    | some cs => match Topic.filterIsInvalid debug cs with
+      | .valid sep => some ⟨bs, sep⟩
+      | _ => none
+  match mk a, mk b with
+  | some f, some g =>
+    let o := match f.cmp g with | .lt => "lt" | .eq => "eq" | .gt => "gt"
+    let r := match g.cmp f with | .lt => "lt" | .eq => "eq" | .gt => "gt"
+    s!"cmp={o} rev={r} eq={b01 (decide (f = g))}"
+  | _, _ => "inv"
+
 def opTn (bs : Bytes) : String :=
   match Utf8.decode bs with
   | none => "notutf8"
@@ -387,6 +402,9 @@ def stepRaw (debug : Bool) (line : String) : String :=
     | some a, some b => opPid a b
     | _, _ => "bad-op"
   | ["tf", h] => withHex h (opTf debug)
+  | ["tfcmp", h1, h2] => match bytesOfHex h1, bytesOfHex h2 with
+    | some a, some b => opTfCmp debug a b
+    | _, _ => "bad-op"
   | ["tn", h] => withHex h opTn
   | ["utf8", h] => withHex h opUtf8
   | ["proto", h] => withHex h opProto
